@@ -1,2 +1,36 @@
 #!/usr/bin/env python3
-# regenerates section 4a of DESIGN.md from harness/registry.json (same code as used when the section was first written)
+"""Regenerates section 4a of DESIGN.md from harness/registry.json."""
+import json, os
+here = os.path.dirname(os.path.abspath(__file__))
+reg = json.load(open(os.path.join(here, 'harness/registry.json')))
+lines = ['## 4a. Registered harnesses (generated from harness/registry.json)', '',
+         'Section 4 below is the original plan; the table here is what the checks run. `q` = quick tier, `t` = thorough tier;',
+         'options: solver (default z3), `merge` = guarded merging on, `foot` = footprint log on, `x:<solver>` = every query cross-checked with a second solver.', '']
+for pid in sorted(reg):
+    ps = reg[pid]
+    lines += ['**%s**' % pid, '', '| harness | tier | options | bound |', '|---|---|---|---|']
+    for h in ps['harnesses']:
+        t = ''.join('q' if x == 'quick' else 't' for x in h['tiers'])
+        opts = []
+        if h.get('solver'): opts.append(h['solver'])
+        if h.get('merge'): opts.append('merge')
+        if h.get('footprint'): opts.append('foot')
+        if h.get('cross'): opts.append('x:' + h['cross'])
+        lines.append('| `%s` | %s | %s | %s |' % (h['name'], t, ' '.join(opts), h['bound'].replace('|', '/')))
+    lines.append('')
+    if ps.get('assumptions'): lines.append('Assumptions: ' + '; '.join(ps['assumptions']) + '.')
+    if ps.get('outside_bound'): lines.append('Outside the claim: ' + '; '.join(ps['outside_bound']) + '.')
+    if ps.get('stubs'): lines.append('Stubs: ' + '; '.join(ps['stubs']) + '.')
+    lines.append('')
+block = '\n'.join(lines)
+p = os.path.join(here, 'DESIGN.md')
+s = open(p).read()
+a = s.find('## 4a. Registered harnesses')
+b = s.find('## 4. Per-property designs')
+sep = '\n---------------------------------------------------------------------------\n\n'
+if a >= 0:
+    s = s[:a] + block + sep + s[b:]
+else:
+    s = s[:b] + block + sep + s[b:]
+open(p, 'w').write(s)
+print('DESIGN.md section 4a regenerated')
